@@ -15,6 +15,13 @@
 //	    PIMPL <id> sched=<s> result=<ok|hang:<phase>> ids=<...> regs=<n> ram=<n>
 //	c12 protoreplay <acts>         one scenario
 //	c12 probeje                    is procbuilder's `je` still a stub?  JE stub=<0|1>
+//	c12 chan <n> <dir>             programs with several channels and several goroutines (each goroutine is given
+//	                               a subset of the channels, in an order different from their declaration):
+//	    CHAN <id> w= exit= srctopo=<g:p,p;…> reqtopo=<g:p,p;…> expected=<v,v,…> got=<v,v,…|deadlock:…>
+//	                               srctopo = the topology the source implies, reqtopo = Usage_Monitor's Chanr (what
+//	                               Create_Bondmachine wires); got = main's outputs when all processors' emitted code
+//	                               runs on rendezvous channels restricted to the requested topology
+//	c12 chanfile <file.go> <id> <w> <srctopo> <expected>   the same for a given source
 //
 // A hang is detected from a consistent goroutine dump: every goroutine of the case (worker,
 // Var_assigner, Usage_Monitor) is blocked on a channel operation — nobody is left to unblock them.
@@ -59,8 +66,17 @@ type stmt struct {
 	ca, cb *expr
 	t, el  []*stmt
 	deep   bool // inc/dec below two or more enclosing if/for constructs
+	cases  []swCase // switch: case clauses (value, body); `el` holds the default clause (nil = none)
+	xs     []int   // tuple assignment: destinations
+	es     []*expr // tuple assignment: right-hand sides
 	init   *stmt // `if init; cond {` / `for init; cond; post {` (an assignment or ++/--)
 	post   *stmt
+}
+
+// one `case <lit>:` clause of a switch
+type swCase struct {
+	val  *expr
+	body []*stmt
 }
 
 type prog struct {
@@ -79,6 +95,7 @@ type gen struct {
 	p      *prog
 	budget int
 	scope  []int // indices of the variables in scope, outermost first (a later one shadows an earlier one of the same name)
+	here   []map[string]bool // names declared in the enclosing blocks, innermost last (a `:=` must not re-declare one of the innermost)
 }
 
 // visible: for every name in scope the index Go resolves it to (the innermost declaration)
@@ -144,10 +161,11 @@ func (g *gen) block(nest int, inIf bool, inLoop bool) []*stmt {
 	n := 1 + g.r.Intn(4)
 	var res []*stmt
 	mark := len(g.scope)
-	defer func() { g.scope = g.scope[:mark] }()
+	here := map[string]bool{}
+	g.here = append(g.here, here)
+	defer func() { g.scope = g.scope[:mark]; g.here = g.here[:len(g.here)-1] }()
 	// block-local memory variables, possibly shadowing an outer memory variable's name
 	if g.r.Chance(2, 5) {
-		here := map[string]bool{}
 		for k := 1 + g.r.Intn(2); k > 0; k-- {
 			idx := len(g.p.names)
 			name := "v" + strconv.Itoa(idx)
@@ -194,6 +212,21 @@ func (g *gen) simple() *stmt {
 	return &stmt{k: "asg", x: x, e: &expr{k: "add", a: &expr{k: "var", n: x}, b: g.lit()}}
 }
 
+// declaresName: the statement declares a variable of that name in its own block
+func declaresName(p *prog, s *stmt, name string) bool {
+	if s.k == "decl" && p.names[s.x] == name {
+		return true
+	}
+	if s.k == "def" {
+		for _, x := range s.xs {
+			if p.names[x] == name {
+				return true
+			}
+		}
+	}
+	return false
+}
+
 func hasTopDecl(b []*stmt) bool {
 	for _, s := range b {
 		if s.k == "decl" {
@@ -218,7 +251,124 @@ func (g *gen) stmt(nest int, inIf bool, inLoop bool) *stmt {
 		g.p.tags["continue"] = true
 		return &stmt{k: "cont"}
 	}
+	if g.r.Chance(1, 12) {
+		// `x := e` / `x, y := e1, e2`: fresh names, or (in nested blocks) the name of an outer variable —
+		// never a name already declared in this block (bondgo mishandles that, see docs/C12.md)
+		cur := g.here[len(g.here)-1]
+		k := 1
+		if g.r.Chance(1, 3) {
+			k = 2
+		}
+		st := &stmt{k: "def"}
+		for i := 0; i < k; i++ {
+			st.es = append(st.es, g.expr(1)) // evaluated in the scope before the new variables
+		}
+		vis := g.visible()
+		var newNames []string
+		for i := 0; i < k; i++ {
+			idx := len(g.p.names) + i
+			name := "v" + strconv.Itoa(idx)
+			if g.r.Chance(1, 10) {
+				name = "reg_v" + strconv.Itoa(idx)
+			}
+			if g.r.Bool() {
+				var cands []string
+				for _, v := range vis {
+					nm := g.p.names[v]
+					dup := cur[nm]
+					for _, nn := range newNames {
+						if nn == nm {
+							dup = true
+						}
+					}
+					if !dup && (!strings.HasPrefix(nm, "reg_") || g.r.Chance(1, 4)) {
+						cands = append(cands, nm)
+					}
+				}
+				if len(cands) > 0 {
+					name = cands[g.r.Intn(len(cands))]
+					g.p.tags["define-shadow"] = true
+				}
+			}
+			newNames = append(newNames, name)
+		}
+		for i, name := range newNames {
+			idx := len(g.p.names)
+			g.p.names = append(g.p.names, name)
+			g.scope = append(g.scope, idx)
+			cur[name] = true
+			st.xs = append(st.xs, idx)
+			if strings.HasPrefix(name, "reg_") {
+				g.p.tags["define-reg"] = true
+			}
+			_ = i
+		}
+		g.p.tags["define"] = true
+		return st
+	}
+	if nest < 3 && g.r.Chance(1, 70) {
+		// switch on a variable, distinct literal cases, simple statements in the clauses, default last.
+		// The model has no switch: the s-expression is the equivalent if/else chain (same source
+		// semantics), so these programs are tied through execution only (tag `switch`: no text comparison)
+		st := &stmt{k: "sw", x: g.pickVar()}
+		simpleBody := func() []*stmt {
+			var b []*stmt
+			for i := 1 + g.r.Intn(2); i > 0; i-- {
+				switch g.r.Intn(3) {
+				case 0:
+					b = append(b, &stmt{k: "iow", x: g.r.Intn(g.p.nout), e: g.expr(1)})
+				case 1:
+					b = append(b, &stmt{k: "asg", x: g.pickVar(), e: g.expr(1)})
+				default:
+					b = append(b, g.simple())
+				}
+				g.p.nstmts++
+			}
+			return b
+		}
+		used := map[int]bool{}
+		for i := 1 + g.r.Intn(3); i > 0; i-- {
+			v := g.r.Intn(5)
+			if used[v] {
+				continue
+			}
+			used[v] = true
+			st.cases = append(st.cases, swCase{val: &expr{k: "lit", n: v}, body: simpleBody()})
+		}
+		if g.r.Bool() {
+			st.el = simpleBody()
+		}
+		g.p.tags["switch"] = true
+		return st
+	}
 	switch {
+	case c < 5 && g.r.Chance(1, 4) && len(g.visible()) >= 2:
+		// tuple assignment: 2..3 distinct destinations, right-hand sides that read the destinations
+		// (swaps, overlapping reads and writes)
+		vis := g.visible()
+		k := 2
+		if len(vis) >= 3 && g.r.Bool() {
+			k = 3
+		}
+		perm := append([]int{}, vis...)
+		for i := len(perm) - 1; i > 0; i-- {
+			j := g.r.Intn(i + 1)
+			perm[i], perm[j] = perm[j], perm[i]
+		}
+		st := &stmt{k: "tasg", xs: perm[:k]}
+		for i := 0; i < k; i++ {
+			other := perm[(i+1)%k]
+			switch g.r.Intn(3) {
+			case 0:
+				st.es = append(st.es, &expr{k: "var", n: other}) // rotation / swap
+			case 1:
+				st.es = append(st.es, &expr{k: "add", a: &expr{k: "var", n: perm[i]}, b: &expr{k: "var", n: other}})
+			default:
+				st.es = append(st.es, g.expr(1))
+			}
+		}
+		g.p.tags["tuple-assign"] = true
+		return st
 	case c < 5:
 		return &stmt{k: "asg", x: g.pickVar(), e: g.expr(2)}
 	case c < 7:
@@ -268,7 +418,7 @@ func (g *gen) stmt(nest int, inIf bool, inLoop bool) *stmt {
 		body := g.block(nest+1, false, true)
 		shadowed := false
 		for _, b := range body {
-			if b.k == "decl" && g.p.names[b.x] == g.p.names[v] {
+			if declaresName(g.p, b, g.p.names[v]) {
 				shadowed = true
 			}
 		}
@@ -312,7 +462,7 @@ func (g *gen) stmt(nest int, inIf bool, inLoop bool) *stmt {
 				}
 				shadowedHere := false
 				for _, b := range st.t[:k] {
-					if b.k == "decl" && g.p.names[b.x] == g.p.names[v] {
+					if declaresName(g.p, b, g.p.names[v]) {
 						shadowedHere = true
 					}
 				}
@@ -358,9 +508,12 @@ func genProgW(r *common.Rng, maxstmts int, w int) *prog {
 	p.nin = r.Intn(3)
 	p.nout = 1 + r.Intn(2)
 	g := &gen{r: r, p: p, budget: 3 + r.Intn(maxstmts-2)}
+	top := map[string]bool{}
 	for i := range p.decls {
 		g.scope = append(g.scope, i)
+		top[p.names[i]] = true
 	}
+	g.here = []map[string]bool{top}
 	for g.budget > 0 {
 		p.body = append(p.body, g.stmt(0, false, false))
 	}
@@ -402,6 +555,33 @@ func (s *stmt) sx() string {
 		return fmt.Sprintf("(%s %d)", s.k, s.x)
 	case "brk", "cont":
 		return s.k
+	case "sw":
+		// if x == v1 {B1} else { if x == v2 {B2} else { … default … } }
+		var chain func(i int) string
+		chain = func(i int) string {
+			c := s.cases[i]
+			cond := fmt.Sprintf("(eq (var %d) %s)", s.x, c.val.sx())
+			if i == len(s.cases)-1 {
+				if s.el == nil {
+					return fmt.Sprintf("(if %s %s)", cond, blockSx(c.body))
+				}
+				return fmt.Sprintf("(ife %s %s %s)", cond, blockSx(c.body), blockSx(s.el))
+			}
+			return fmt.Sprintf("(ife %s %s (seq %s skip))", cond, blockSx(c.body), chain(i+1))
+		}
+		return chain(0)
+	case "def":
+		r := "(def"
+		for i, x := range s.xs {
+			r += fmt.Sprintf(" (%d %s)", x, s.es[i].sx())
+		}
+		return r + ")"
+	case "tasg":
+		r := "(tasg"
+		for i, x := range s.xs {
+			r += fmt.Sprintf(" (%d %s)", x, s.es[i].sx())
+		}
+		return r + ")"
 	case "if":
 		return fmt.Sprintf("(if (eq %s %s) %s)", s.ca.sx(), s.cb.sx(), blockSx(s.t))
 	case "ife":
@@ -510,11 +690,17 @@ func normStmts(b []*stmt) {
 			s.ca = norm(s.ca)
 			s.cb = norm(s.cb)
 		}
+		for i := range s.es {
+			s.es[i] = norm(s.es[i])
+		}
 		if s.init != nil {
 			normStmts([]*stmt{s.init})
 		}
 		if s.post != nil {
 			normStmts([]*stmt{s.post})
+		}
+		for i := range s.cases {
+			normStmts(s.cases[i].body)
 		}
 		normStmts(s.t)
 		normStmts(s.el)
@@ -542,6 +728,31 @@ func (p *prog) goBlock(sb *strings.Builder, b []*stmt, ind string) {
 		switch s.k {
 		case "asg":
 			fmt.Fprintf(sb, "%s%s = %s\n", ind, p.varName(s.x), p.goFlat(s.e))
+		case "sw":
+			fmt.Fprintf(sb, "%sswitch %s {\n", ind, p.varName(s.x))
+			for _, c := range s.cases {
+				fmt.Fprintf(sb, "%scase %s:\n", ind, p.goFlat(c.val))
+				p.goBlock(sb, c.body, ind+"\t")
+			}
+			if s.el != nil {
+				fmt.Fprintf(sb, "%sdefault:\n", ind)
+				p.goBlock(sb, s.el, ind+"\t")
+			}
+			fmt.Fprintf(sb, "%s}\n", ind)
+		case "def":
+			var dl, dr []string
+			for i, x := range s.xs {
+				dl = append(dl, p.varName(x))
+				dr = append(dr, p.goFlat(s.es[i]))
+			}
+			fmt.Fprintf(sb, "%s%s := %s\n", ind, strings.Join(dl, ", "), strings.Join(dr, ", "))
+		case "tasg":
+			var l, r []string
+			for i, x := range s.xs {
+				l = append(l, p.varName(x))
+				r = append(r, p.goFlat(s.es[i]))
+			}
+			fmt.Fprintf(sb, "%s%s = %s\n", ind, strings.Join(l, ", "), strings.Join(r, ", "))
 		case "brk":
 			fmt.Fprintf(sb, "%sbreak\n", ind)
 		case "cont":
@@ -645,6 +856,71 @@ func twinStmts(b []*stmt) []*stmt {
 	return r
 }
 
+// redeclVariant: a copy of p with one `:=` inserted that names a variable already declared in the same
+// block (alone, or together with a new name — Go's partial re-declaration). bondgo refuses both
+// ("Already defined variable", /repo a87efcf) and so does the model (redeclProg). nil = no block of p
+// declares anything before one of its statements.
+func redeclVariant(p *prog, r *common.Rng) *prog {
+	q := *p
+	q.names = append([]string{}, p.names...)
+	q.tags = map[string]bool{"redeclare": true}
+	var top []int
+	for i := range p.decls {
+		top = append(top, i)
+	}
+	count := 0
+	pick := -1
+	var walk func(b []*stmt, here []int) []*stmt
+	walk = func(b []*stmt, here []int) []*stmt {
+		var res []*stmt
+		for _, s := range b {
+			if len(here) > 0 {
+				if count == pick {
+					x := here[r.Intn(len(here))]
+					nw := len(q.names)
+					lit := func() *expr { return &expr{k: "lit", n: r.Intn(200)} }
+					st := &stmt{k: "def"}
+					switch r.Intn(3) {
+					case 0:
+						st.xs, st.es = []int{x}, []*expr{lit()}
+					case 1:
+						q.names = append(q.names, "v"+strconv.Itoa(nw))
+						st.xs, st.es = []int{x, nw}, []*expr{lit(), lit()}
+					default:
+						q.names = append(q.names, "v"+strconv.Itoa(nw))
+						st.xs, st.es = []int{nw, x}, []*expr{lit(), &expr{k: "var", n: x}}
+					}
+					res = append(res, st)
+				}
+				count++
+			}
+			c := *s
+			switch s.k {
+			case "decl":
+				here = append(append([]int{}, here...), s.x)
+			case "def":
+				here = append(append([]int{}, here...), s.xs...)
+			case "sw":
+				// clauses are left alone
+			default:
+				c.t = walk(s.t, nil)
+				c.el = walk(s.el, nil)
+			}
+			res = append(res, &c)
+		}
+		return res
+	}
+	walk(p.body, top)
+	if count == 0 {
+		return nil
+	}
+	pick = r.Intn(count)
+	count = 0
+	q.names = append([]string{}, p.names...)
+	q.body = walk(p.body, top)
+	return &q
+}
+
 // scopesOK: every variable reference (by unique index) is what Go's name resolution gives for the
 // printed name at that point, and no block declares a name twice.  Guards the two printers.
 func (p *prog) scopesOK() bool {
@@ -672,10 +948,19 @@ func (p *prog) scopesOK() bool {
 		ex(e.a)
 		ex(e.b)
 	}
+	topHere := map[string]bool{}
+	for i := range p.decls {
+		topHere[p.names[i]] = true
+	}
+	first := true
 	var blk func(b []*stmt)
 	blk = func(b []*stmt) {
 		mark := len(scope)
 		here := map[string]bool{}
+		if first {
+			here = topHere // the body of main shares the scope of the top-level declarations
+			first = false
+		}
 		for _, s := range b {
 			switch s.k {
 			case "decl":
@@ -686,6 +971,27 @@ func (p *prog) scopesOK() bool {
 				scope = append(scope, s.x)
 			case "asg", "inc", "dec":
 				resolve(s.x)
+			case "def":
+				for _, e := range s.es {
+					ex(e) // in the scope before the new variables
+				}
+				for _, x := range s.xs {
+					if here[p.names[x]] {
+						ok = false
+					}
+					here[p.names[x]] = true
+					scope = append(scope, x)
+				}
+			case "tasg":
+				for i, x := range s.xs {
+					resolve(x)
+					ex(s.es[i])
+				}
+			case "sw":
+				resolve(s.x)
+				for _, c := range s.cases {
+					blk(c.body)
+				}
 			}
 			for _, c := range []*stmt{s.init, s.post} {
 				if c != nil {
@@ -835,6 +1141,7 @@ type procRes struct {
 }
 
 type compRes struct {
+	chanTopo map[int][]int // requested channel topology: global channel id -> processors (Usage_Monitor's Chanr)
 	procRes          // processor 0 (main)
 	more    []procRes // processors 1.. (functions started with `go`)
 	faulty  string
@@ -941,6 +1248,12 @@ func compileWorker(f *ast.File, config *bondgo.BondgoConfig, res *compRes, mu *s
 				q.ops = append([]string{}, pr.Opcodes...)
 				q.haveRq = true
 			}
+		}
+		res.chanTopo = map[int][]int{}
+		for g, cr := range reqmnts.Chanr {
+			l := append([]int{}, cr.Connected...)
+			sortInts(l)
+			res.chanTopo[g] = l
 		}
 		mu.Unlock()
 		setPhase("exit-assigner")
@@ -1376,6 +1689,307 @@ func emitProto(id int, acts []string, extra string) {
 
 // ---------------------------------------------------------------------------------------------
 
+// ---------------------------------------------------------------------------------------------
+// several channels, several goroutines
+
+type chanProg struct {
+	w        int
+	nch      int
+	prods    [][]int // per goroutine: the channels it is given, in parameter order
+	sends    [][]int // per goroutine: its sends, as indices into its parameter list
+	values   [][]int // per goroutine: the value of each send
+	recvs    []int   // main: the channels it receives from, in order
+	expected []int
+}
+
+func genChanProg(r *common.Rng) *chanProg {
+	cp := &chanProg{w: []int{8, 16, 32}[r.Intn(3)], nch: 2 + r.Intn(3)}
+	// every goroutine owns a disjoint, non-empty subset of the channels; some channels may stay unused
+	perm := make([]int, cp.nch)
+	for i := range perm {
+		perm[i] = i
+	}
+	for i := len(perm) - 1; i > 0; i-- {
+		j := r.Intn(i + 1)
+		perm[i], perm[j] = perm[j], perm[i]
+	}
+	np := 1 + r.Intn(3)
+	if np > cp.nch {
+		np = cp.nch
+	}
+	used := 0
+	for g := 0; g < np; g++ {
+		k := 1
+		if cp.nch-used-(np-g-1) > 1 && r.Bool() {
+			k = 2
+		}
+		cp.prods = append(cp.prods, append([]int{}, perm[used:used+k]...)) // shuffled: not the declaration order
+		used += k
+	}
+	val := 1
+	for g := range cp.prods {
+		n := 1 + r.Intn(3)
+		var sd, vs []int
+		for i := 0; i < n; i++ {
+			sd = append(sd, r.Intn(len(cp.prods[g])))
+			vs = append(vs, (val*7+3)%250+1)
+			val++
+		}
+		cp.sends = append(cp.sends, sd)
+		cp.values = append(cp.values, vs)
+	}
+	// main receives in a random merge of the goroutines' send sequences (no deadlock under Go semantics)
+	pos := make([]int, np)
+	for {
+		var ready []int
+		for g := 0; g < np; g++ {
+			if pos[g] < len(cp.sends[g]) {
+				ready = append(ready, g)
+			}
+		}
+		if len(ready) == 0 {
+			break
+		}
+		g := ready[r.Intn(len(ready))]
+		cp.recvs = append(cp.recvs, cp.prods[g][cp.sends[g][pos[g]]])
+		cp.expected = append(cp.expected, cp.values[g][pos[g]])
+		pos[g]++
+	}
+	return cp
+}
+
+func (cp *chanProg) source() string {
+	var sb strings.Builder
+	sb.WriteString("package main\n\nimport (\n\t\"bondgo\"\n)\n\n")
+	for g, chs := range cp.prods {
+		var ps []string
+		for k := range chs {
+			ps = append(ps, fmt.Sprintf("p%d chan uint%d", k, cp.w))
+		}
+		fmt.Fprintf(&sb, "func prod%d(%s) {\n", g, strings.Join(ps, ", "))
+		for i, k := range cp.sends[g] {
+			fmt.Fprintf(&sb, "\tp%d <- %d\n", k, cp.values[g][i])
+		}
+		sb.WriteString("}\n\n")
+	}
+	sb.WriteString("func main() {\n\tvar o0 bondgo.Output\n")
+	for c := 0; c < cp.nch; c++ {
+		fmt.Fprintf(&sb, "\tvar c%d chan uint%d\n", c, cp.w)
+	}
+	fmt.Fprintf(&sb, "\tvar x uint%d\n\to0 = bondgo.Make(bondgo.Output, 1)\n", cp.w)
+	for g, chs := range cp.prods {
+		var as []string
+		for _, c := range chs {
+			as = append(as, "c"+strconv.Itoa(c))
+		}
+		fmt.Fprintf(&sb, "\tgo prod%d(%s)\n", g, strings.Join(as, ", "))
+	}
+	for _, c := range cp.recvs {
+		fmt.Fprintf(&sb, "\tx = <-c%d\n\tbondgo.IOWrite(o0, x)\n", c)
+	}
+	sb.WriteString("}\n")
+	return sb.String()
+}
+
+// the topology the source implies: main (processor 0) is attached to every channel it declares,
+// goroutine g (processor g+1) to the channels it is given
+func (cp *chanProg) srcTopo() map[int][]int {
+	t := map[int][]int{}
+	for c := 0; c < cp.nch; c++ {
+		t[c] = []int{0}
+	}
+	for g, chs := range cp.prods {
+		for _, c := range chs {
+			t[c] = append(t[c], g+1)
+		}
+	}
+	for c := range t {
+		sortInts(t[c])
+	}
+	return t
+}
+
+func topoStr(t map[int][]int) string {
+	var ks []int
+	for k := range t {
+		ks = append(ks, k)
+	}
+	sortInts(ks)
+	var parts []string
+	for _, k := range ks {
+		var ps []string
+		for _, p := range t[k] {
+			ps = append(ps, strconv.Itoa(p))
+		}
+		parts = append(parts, strconv.Itoa(k)+":"+strings.Join(ps, ","))
+	}
+	if len(parts) == 0 {
+		return "-"
+	}
+	return strings.Join(parts, ";")
+}
+
+func parseTopo(s string) map[int][]int {
+	t := map[int][]int{}
+	if s == "-" || s == "" {
+		return t
+	}
+	for _, part := range strings.Split(s, ";") {
+		kv := strings.SplitN(part, ":", 2)
+		k, _ := strconv.Atoi(kv[0])
+		t[k] = []int{}
+		if len(kv) == 2 && kv[1] != "" {
+			for _, p := range strings.Split(kv[1], ",") {
+				v, _ := strconv.Atoi(p)
+				t[k] = append(t[k], v)
+			}
+		}
+	}
+	return t
+}
+
+type mproc struct {
+	lines    []string
+	pc       int
+	regs     map[string]uint64
+	mem      map[string]uint64
+	waiting  bool
+	pendW    bool   // a wanted write (wwr) / read (wrd) is posted
+	pendR    bool
+	pendReg  string
+	pendGlob int
+}
+
+// runChannels interprets the emitted code of all processors.  The local channel chK of processor p is the
+// K-th channel the source attaches p to (locmap, from the source: main declares c0.. in order, a goroutine
+// gets its parameters in order); a rendezvous on a global channel happens only between processors the
+// *requested* topology (req) attaches to it.  Returns main's outputs and "" or a deadlock / error note.
+func runChannels(progs [][]string, locmap [][]int, req map[int][]int, w int, maxSteps int) ([]uint64, string) {
+	mask := ^uint64(0)
+	if w < 64 {
+		mask = uint64(1)<<uint(w) - 1
+	}
+	attached := func(p, g int) bool {
+		for _, q := range req[g] {
+			if q == p {
+				return true
+			}
+		}
+		return false
+	}
+	ps := make([]*mproc, len(progs))
+	for i, l := range progs {
+		var nb []string
+		for _, x := range l {
+			if strings.TrimSpace(x) != "" {
+				nb = append(nb, x)
+			}
+		}
+		ps[i] = &mproc{lines: nb, regs: map[string]uint64{}, mem: map[string]uint64{}}
+	}
+	var outs []uint64
+	for step := 0; step < maxSteps; step++ {
+		progress := false
+		// rendezvous
+		for a := range ps {
+			for b := range ps {
+				if a != b && ps[a].waiting && ps[b].waiting && ps[a].pendW && ps[b].pendR &&
+					ps[a].pendGlob == ps[b].pendGlob && attached(a, ps[a].pendGlob) && attached(b, ps[b].pendGlob) {
+					ps[b].regs[ps[b].pendReg] = ps[a].regs[ps[a].pendReg]
+					ps[a].waiting, ps[b].waiting = false, false
+					ps[a].pendW, ps[b].pendR = false, false
+					progress = true
+				}
+			}
+		}
+		for pi, p := range ps {
+			if p.waiting || p.pc >= len(p.lines) {
+				continue
+			}
+			f := strings.Fields(p.lines[p.pc])
+			progress = true
+			switch f[0] {
+			case "clr":
+				p.regs[f[1]] = 0
+			case "rset":
+				v, _ := strconv.ParseUint(f[2], 10, 64)
+				p.regs[f[1]] = v & mask
+			case "cpy":
+				p.regs[f[1]] = p.regs[f[2]]
+			case "r2m":
+				p.mem[f[2]] = p.regs[f[1]]
+			case "m2r":
+				p.regs[f[1]] = p.mem[f[2]]
+			case "r2o":
+				if pi == 0 {
+					outs = append(outs, p.regs[f[1]])
+				}
+			case "wwr", "wrd":
+				k, err := strconv.Atoi(strings.TrimPrefix(f[2], "ch"))
+				if err != nil || k >= len(locmap[pi]) {
+					return outs, fmt.Sprintf("error:processor_%d_uses_%s_but_the_source_attaches_it_to_%d_channels", pi, f[2], len(locmap[pi]))
+				}
+				p.pendReg, p.pendGlob = f[1], locmap[pi][k]
+				p.pendW, p.pendR = f[0] == "wwr", f[0] == "wrd"
+			case "chw":
+				if p.pendW || p.pendR {
+					p.waiting = true
+				}
+			default:
+				return outs, "error:unexpected_instruction_" + f[0]
+			}
+			p.pc++
+		}
+		if !progress {
+			for pi, p := range ps {
+				if p.waiting {
+					return outs, fmt.Sprintf("deadlock:processor_%d_waits_on_channel_%d", pi, p.pendGlob)
+				}
+			}
+			return outs, ""
+		}
+	}
+	return outs, "error:step_budget"
+}
+
+func numsStr(v []uint64) string {
+	var s []string
+	for _, x := range v {
+		s = append(s, strconv.FormatUint(x, 10))
+	}
+	if len(s) == 0 {
+		return "-"
+	}
+	return strings.Join(s, ",")
+}
+
+func emitChan(id int, src string, w int, srcTopo map[int][]int, expected string) {
+	r := compileInProc(src, w, "0")
+	if r.exit != "ok" {
+		out.Line("CHAN %d w=%d exit=%s srctopo=%s reqtopo=- expected=%s got=-", id, w, r.exit, topoStr(srcTopo), expected)
+		return
+	}
+	nproc := 1 + len(r.more)
+	progs := make([][]string, nproc)
+	locmap := make([][]int, nproc)
+	for p := 0; p < nproc; p++ {
+		progs[p] = r.proc(p).asm
+	}
+	// local channel numbering implied by the source: main's channels in declaration order = global ids;
+	// a goroutine's in parameter order.  The goroutine's parameter order is recovered from srcTopo only
+	// as a set, so the caller passes it through the environment of the generator: see chanLocmap
+	locmap = chanLocmap
+	got, note := runChannels(progs, locmap, r.chanTopo, w, 100000)
+	g := numsStr(got)
+	if note != "" {
+		g += "|" + note
+	}
+	out.Line("CHAN %d w=%d exit=ok srctopo=%s reqtopo=%s expected=%s got=%s", id, w, topoStr(srcTopo), topoStr(r.chanTopo), expected, g)
+}
+
+// chanLocmap: per processor, local channel index -> global channel id, as the source implies it
+var chanLocmap [][]int
+
 func main() {
 	defer out.Flush()
 	if len(os.Args) < 2 {
@@ -1418,10 +2032,25 @@ func main() {
 			src := p.goSource()
 			os.WriteFile(filepath.Join(dir, fmt.Sprintf("p%d.go", id)), []byte(src), 0o644)
 			emitProgram(id, p, src, int(seed)*131+id, strconv.Itoa(1+r.Intn(1000000)))
+			if rr := common.NewRng(seed*7919 + uint64(id) + 5); rr.Chance(1, 6) {
+				// the same program with a `:=` re-declaring a name of its own block: to be refused
+				if q := redeclVariant(p, rr); q != nil && q.scopesOK() {
+					out.Line("GENBUG %d the re-declaring variant passes the generator's scoping check", 300000+id)
+				} else if q != nil {
+					qsrc := q.goSource()
+					os.WriteFile(filepath.Join(dir, fmt.Sprintf("p%d.go", 300000+id)), []byte(qsrc), 0o644)
+					emitProgram(300000+id, q, qsrc, int(seed)*131+id, "")
+				}
+			}
 			if p.tags["incdec-deep"] {
 				q := *p
 				q.body = twinStmts(p.body)
 				q.tags = map[string]bool{"twin-of-" + strconv.Itoa(id): true}
+				for _, t := range []string{"switch", "define-reg"} {
+					if p.tags[t] {
+						q.tags[t] = true
+					}
+				}
 				qsrc := q.goSource()
 				os.WriteFile(filepath.Join(dir, fmt.Sprintf("p%d.go", 100000+id)), []byte(qsrc), 0o644)
 				emitProgram(100000+id, &q, qsrc, int(seed)*131+id, "")
@@ -1459,6 +2088,58 @@ func main() {
 		}
 	case "protoreplay":
 		emitProto(0, strings.Split(os.Args[2], ","), "")
+	case "chan":
+		n, _ := strconv.Atoi(os.Args[2])
+		dir := os.Args[3]
+		os.MkdirAll(dir, 0o755)
+		r := common.NewRng(seed*104729 + 77)
+		for id := 0; id < n; id++ {
+			cp := genChanProg(r)
+			src := cp.source()
+			os.WriteFile(filepath.Join(dir, fmt.Sprintf("ch%d.go", id)), []byte(src), 0o644)
+			chanLocmap = make([][]int, 1+len(cp.prods))
+			for c := 0; c < cp.nch; c++ {
+				chanLocmap[0] = append(chanLocmap[0], c)
+			}
+			for g, chs := range cp.prods {
+				chanLocmap[g+1] = append([]int{}, chs...)
+			}
+			var ex []uint64
+			for _, v := range cp.expected {
+				ex = append(ex, uint64(v))
+			}
+			var lm []string
+			for _, l := range chanLocmap {
+				var x []string
+				for _, c := range l {
+					x = append(x, strconv.Itoa(c))
+				}
+				lm = append(lm, strings.Join(x, ","))
+			}
+			out.Line("CHANSRC %d locmap=%s", id, strings.Join(lm, "/"))
+			emitChan(id, src, cp.w, cp.srcTopo(), numsStr(ex))
+			out.Flush()
+		}
+	case "chanfile":
+		b, err := os.ReadFile(os.Args[2])
+		if err != nil {
+			fmt.Fprintln(os.Stderr, err)
+			os.Exit(2)
+		}
+		id, _ := strconv.Atoi(os.Args[3])
+		w, _ := strconv.Atoi(os.Args[4])
+		chanLocmap = nil
+		for _, part := range strings.Split(os.Args[7], "/") {
+			var l []int
+			if part != "" {
+				for _, c := range strings.Split(part, ",") {
+					v, _ := strconv.Atoi(c)
+					l = append(l, v)
+				}
+			}
+			chanLocmap = append(chanLocmap, l)
+		}
+		emitChan(id, string(b), w, parseTopo(os.Args[5]), os.Args[6])
 	case "probeje":
 		arch := new(procbuilder.Arch)
 		arch.Rsize = 8
